@@ -110,7 +110,9 @@ pub(crate) fn rank_dials(dials: Vec<PendingDial>) -> Vec<(Duration, PendingDial)
         relay_offset,
     ));
 
-    let max_delay = result.last().map(|d| d.0);
+    // The last entry is not necessarily the latest one: within a group non-QUIC/TCP transports are
+    // scheduled after the group's QUIC and TCP addresses, and the relay group starts over at its offset.
+    let max_delay = result.iter().map(|d| d.0).max();
     result.extend(other.into_iter().map(|d| {
         if let Some(max_delay) = max_delay {
             (max_delay + PUBLIC_OTHER_DELAY, d)
